@@ -131,7 +131,7 @@ def r2_subsumption(ctx):
             continue
         ip = X.Interp(cr, uninterpreted=lambda p: not p.endswith('is_subsumed') and not p.endswith('PartialEq>::eq') and not p.endswith('PartialEq<&B> for &A>::ne'))
         st = ip.start_state(fn, arg_names=['a0'])
-        ip.run(st)
+        outs = ip.run(st)
         ctx.absorb(ip, rs)
         outer = {}
         for b in ip.back_states:
@@ -140,6 +140,10 @@ def r2_subsumption(ctx):
                 outer.setdefault(b[1], []).append((b, calls))
         # the operand loop is the one whose iterations remove from the vector
         heads = [h for h, bs in outer.items() if any(c[0].endswith('Vec::<T, A>::remove') for _, calls in bs for c in calls)]
+        if not heads and outer:
+            # nothing is removed in place: the survivors are collected into a second vector that replaces the first
+            by_kept_vector(ctx, cfg, ip, fn, rs, outer, outs)
+            continue
         okn = len(heads) == 1 and len(outer[heads[0]]) >= 2
         ctx.obligation(okn)
         (ctx.ok if okn else ctx.violation)('C16.R2', 'C16.R2/remove_subsumed/loop-shape', rs, fn.site(), {'heads': sorted(outer)}, cfg)
@@ -178,6 +182,89 @@ def r2_subsumption(ctx):
         ok = {'subsumed-operand-removed-at-its-own-index', 'kept-operand-skipped'} <= roles
         ctx.obligation(ok)
         (ctx.ok if ok else ctx.violation)('C16.R2', 'C16.R2/remove_subsumed/both-cases-present', rs, fn.site(), {'roles': sorted(roles)}, cfg)
+
+
+def by_kept_vector(ctx, cfg, ip, fn, rs, outer, outs):
+    """remove_subsumed written with a vector of survivors: one pass over the operands a[0..n); the current operand
+    r = a[i] is tested against every survivor so far and against every operand from position i on (itself excluded by
+    the `x != r` conjunct); it is appended to the survivors iff neither test finds an operand that includes it; the
+    survivors replace a when the pass is over.  Same obligations as the in-place form: an operand is dropped only if
+    some OTHER operand that is still there (kept, or not examined yet) includes it, and kept otherwise."""
+    from .. import loopsum
+    a0 = A(0)
+    roles = set()
+
+    def other_includes(q, r, P):
+        # q = (kind, dom, k, body): body (for `any`) / its negation (for `all`) must be  x != r && sub_language(r, x)
+        kind, dom, k, body = q
+        if dom[0] == 'slice' and dom[1] == a0:
+            x = ('elem', a0, T.mk_add(dom[2], k))
+        else:
+            x = ('elem', dom, k)
+        want_id = AND(ne(T.fld(x, 'id', 'usize'), T.fld(r, 'id', 'usize')), sub(r, x))
+        b = body if kind == 'any' else NOT(body)
+        if T.valid_iff([], b, want_id):
+            return True
+        for t in T.subterms(b):
+            if t[0] == 'call' and t[1].endswith('::eq') and set(t[2]) == {x, r}:
+                if T.valid_iff([], b, AND(NOT(T.typed(t, 'bool')), sub(r, x))):
+                    return True
+        return False
+    for head, bs in outer.items():
+        okshape = len(bs) >= 2
+        for (b, calls) in bs:
+            (_, _h, bst, bmap, valid, cur) = b
+            inst = None
+            for hv, ev in bmap:
+                inst = loopsum.inst_of(hv) or inst
+            facts = loopsum.summarise_facts(ip, bst, skip={inst})
+            qs = [q for q in (loopsum.qnorm(f) for f in facts) if q is not None]
+            ivars = [hv for hv, ev in bmap if T.TYPES.get(hv) == 'usize' and cur.get(hv) == T.mk_add(hv, I(1))]
+            lists = [(hv, cur.get(hv)) for hv in cur if hv[0] == 'var' and '.l' in hv[1]]
+            ok = len(ivars) == 1 and len(lists) == 1 and bool(qs)
+            role = 'one-pass-with-one-survivor-vector'
+            if ok:
+                P = ivars[0]
+                r = ('elem', a0, P)
+                K, newk = lists[0]
+                rest_dom = lambda d: d[0] == 'slice' and d[1] == a0 and d[2] in (P, T.mk_add(P, I(1)))
+                ok = all((q[1] == K or rest_dom(q[1])) and other_includes(q, r, P) for q in qs)
+                role = 'tests-current-operand-against-survivors-and-remaining-operands'
+                if ok and all(q[0] == 'all' for q in qs):
+                    # nobody else includes r: both domains were searched to the end, and r joins the survivors
+                    ok = ({True for q in qs if q[1] == K} == {True} and {True for q in qs if rest_dom(q[1])} == {True} and
+                          newk == ('list', (('slice', K, I(0), T.typed(('len', K), 'usize')), ('one', r))))
+                    role = 'kept-operand-appended-to-survivors'
+                elif ok and sum(1 for q in qs if q[0] == 'any') == 1:
+                    ok = newk == K
+                    role = 'subsumed-operand-dropped'
+                elif ok:
+                    ok = False
+            roles.add(role)
+            ctx.obligation(ok)
+            (ctx.ok if ok else ctx.violation)('C16.R2', 'C16.R2/remove_subsumed/%s' % role, rs, fn.site(), {'facts': [T.show(f)[:200] for f in facts][-4:], 'survivors': T.show(lists[0][1])[:160] if lists else None}, cfg)
+        ctx.obligation(okshape)
+        (ctx.ok if okshape else ctx.violation)('C16.R2', 'C16.R2/remove_subsumed/loop-shape', rs, fn.site(), {'heads': sorted(outer)}, cfg)
+    # the survivors replace the operands once the pass is over, and they start empty
+    survivors = {hv for head, bs in outer.items() for (b, calls) in bs for hv in b[5] if hv[0] == 'var' and '.l' in hv[1]}
+    starts = [rec['vec_heads'][V][0] for rec in ip.loop_records.values() for V in rec.get('vec_heads', {}) if V in survivors]
+    nret = 0
+    for o in outs:
+        if o.kind != 'ret':
+            continue
+        nret += 1
+        obj = o.state.frames[0].cells[1].v
+        while isinstance(obj, X.Ref):
+            obj = ip.load(o.state, obj.cell, obj.path)
+        final = ip.to_term(o.state, obj)
+        ok = (final in survivors and loop_exhausted(ip, o.state) and bool(starts) and all(e == ('list', ()) for e in starts)) or (not o.state.loop_exits and final == A(0))
+        ctx.obligation(ok)
+        (ctx.ok if ok else ctx.violation)('C16.R2', 'C16.R2/remove_subsumed/survivors-start-empty-and-replace-the-operands-after-the-whole-pass', rs, fn.site(), {'operands_after': T.show(final)[:160], 'survivors_at_entry': [T.show(e)[:80] for e in starts]}, cfg)
+    ctx.obligation(nret >= 1)
+    (ctx.ok if nret >= 1 else ctx.violation)('C16.R2', 'C16.R2/remove_subsumed/returns', rs, fn.site(), None, cfg)
+    ok = {'kept-operand-appended-to-survivors', 'subsumed-operand-dropped'} <= roles
+    ctx.obligation(ok)
+    (ctx.ok if ok else ctx.violation)('C16.R2', 'C16.R2/remove_subsumed/both-cases-present', rs, fn.site(), {'roles': sorted(roles)}, cfg)
 
 
 def r3_anchoring(ctx):
